@@ -92,9 +92,10 @@ func httpLister(cl *s3c.Client, bucket, api string, p params, resend, owner bool
 }
 
 type e2e struct {
-	c   *ev.Ctx
-	env *fx.Env
-	cfg string
+	c         *ev.Ctx
+	env       *fx.Env
+	cfg       string
+	versioned bool
 }
 
 // dead reports a dead gateway (a listing must never kill it) and tells the caller to stop.
@@ -152,6 +153,28 @@ func (e *e2e) bucketCase(cl *s3c.Client, idx int, seed int64, fixed []string) {
 	r.Shuffle(len(want), func(i, j int) { want[i], want[j] = want[j], want[i] })
 	truth := map[string]meta{}
 	var ups []upload
+	// versioned configuration: the bucket goes through versioning states while it is filled; overwrites leave older
+	// versions behind and deletes leave delete markers - a listing shows the current objects and nothing else
+	vmode := 0
+	setVer := func(st string) bool {
+		resp := cl.PutBucketVersioning(bucket, st)
+		ups = append(ups, upload{Key: "", Status: resp.Status, Code: resp.ErrCode(), Op: "PutBucketVersioning " + st})
+		if !resp.OK() {
+			c.Inconclusive("put bucket versioning: " + resp.String())
+		}
+		return resp.OK()
+	}
+	if e.versioned {
+		vmode = 1 + r.Intn(4) // 1 enabled throughout, 2 suspended before the deletions, 3 suspended after them, 4 never enabled
+		if vmode != 4 && !setVer("Enabled") {
+			return
+		}
+		c.Add(fmt.Sprintf("e2e_versioned_buckets_mode%d", vmode), 1)
+		// some keys are written twice
+		for n := 1 + r.Intn(3); n > 0; n-- {
+			want = append(want, want[r.Intn(len(want))])
+		}
+	}
 	for _, k := range want {
 		var body []byte
 		if !strings.HasSuffix(k, "/") {
@@ -198,7 +221,15 @@ func (e *e2e) bucketCase(cl *s3c.Client, idx int, seed int64, fixed []string) {
 		have = append(have, k)
 	}
 	sort.Strings(have)
-	for n := r.Intn(3); n > 0 && len(have) > 3 && fixed == nil; n-- {
+	marked := map[string]bool{}
+	ndel := r.Intn(3)
+	if vmode > 0 {
+		ndel = 1 + r.Intn(4)
+		if vmode == 2 && !setVer("Suspended") {
+			return
+		}
+	}
+	for n := ndel; n > 0 && len(have) > 3 && fixed == nil; n-- {
 		k := have[r.Intn(len(have))]
 		resp := cl.DeleteObject(bucket, k)
 		if resp.Err != nil {
@@ -210,8 +241,32 @@ func (e *e2e) bucketCase(cl *s3c.Client, idx int, seed int64, fixed []string) {
 		ups = append(ups, upload{Key: k, Status: resp.Status, Code: resp.ErrCode(), Op: "DELETE"})
 		if resp.OK() {
 			delete(truth, k)
+			if vmode >= 1 && vmode <= 3 && !strings.HasSuffix(k, "/") {
+				marked[k] = true
+			}
 		}
 	}
+	if vmode == 3 && !setVer("Suspended") {
+		return
+	}
+	if vmode > 0 && r.Intn(2) == 0 && len(have) > 0 {
+		// a deleted key may come back
+		k := have[r.Intn(len(have))]
+		if _, there := truth[k]; !there && !strings.HasSuffix(k, "/") {
+			body := []byte("written again")
+			resp := cl.PutObject(bucket, k, body)
+			ups = append(ups, upload{Key: k, Size: len(body), Status: resp.Status, Code: resp.ErrCode(), Op: "PUT"})
+			if resp.OK() {
+				truth[k] = meta{Size: int64(len(body)), ETag: resp.Header.Get("ETag")}
+				delete(marked, k)
+			}
+		}
+	}
+	var markedKeys []string
+	for k := range marked {
+		markedKeys = append(markedKeys, k)
+	}
+	sort.Strings(markedKeys)
 	// the key set of the bucket is what HEAD confirms (an acknowledged upload that a later
 	// acknowledged upload destroyed is another property's business)
 	var keys []string
@@ -243,6 +298,12 @@ func (e *e2e) bucketCase(cl *s3c.Client, idx int, seed int64, fixed []string) {
 		return
 	}
 	dirty, witness := orderClass(keys)
+	dirtyMarked := false
+	if !dirty && len(markedKeys) > 0 {
+		all := append(append([]string{}, keys...), markedKeys...)
+		sort.Strings(all)
+		dirtyMarked, witness = orderClass(all)
+	}
 	nparams := c.Pick(9, 12)
 	for j := -1; j < nparams; j++ {
 		rj := rand.New(rand.NewSource(seed + int64(j+2)*7919))
@@ -259,7 +320,7 @@ func (e *e2e) bucketCase(cl *s3c.Client, idx int, seed int64, fixed []string) {
 			}
 			resend := rj.Intn(2) == 0
 			owner := rj.Intn(3) == 0
-			lc := &listCase{keys: keys, meta: truth, p: p, dirty: dirty, lane: api}
+			lc := &listCase{keys: keys, meta: truth, p: p, dirty: dirty, lane: api, marked: markedKeys, dirtyMarked: dirtyMarked}
 			v := judge(lc, httpLister(cl, bucket, api, p, resend, owner))
 			c.Eval(len(v.Pages))
 			for _, o := range v.Observes {
@@ -286,7 +347,7 @@ func (e *e2e) bucketCase(cl *s3c.Client, idx int, seed int64, fixed []string) {
 			sg := sigs(lc, ex, v)
 			for _, sig := range sg {
 				detail := map[string]any{"lane": "e2e " + api + " (" + e.cfg + ")", "bucket_keys": keys, "requests_before": ups, "params": p,
-					"v2_resend_start_after": resend, "fetch_owner": owner, "input_class_dirty": dirty, "verdict": v, "all_signatures_of_case": sg}
+					"v2_resend_start_after": resend, "fetch_owner": owner, "input_class_dirty": dirty, "verdict": v, "all_signatures_of_case": sg, "keys_holding_a_delete_marker": markedKeys}
 				if witness != "" {
 					detail["order_class_witness"] = witness
 				}
@@ -313,15 +374,19 @@ func laneE2E(c *ev.Ctx) {
 	if c.Thorough() {
 		confs = append(confs, conf{"sidecar", gw.Config{Sidecar: true}})
 	}
+	confs = append(confs, conf{"versioned", gw.Config{Versioning: true}})
 	base := c.Rng("e2e").Int63()
 	total := c.Pick(100, 1500)
 	for ci, cf := range confs {
 		n := total
-		if len(confs) > 1 {
+		if c.Thorough() {
 			n = total * 2 / 3
 			if ci > 0 {
 				n = total - n
 			}
+		}
+		if cf.name == "versioned" {
+			n = c.Pick(40, 300)
 		}
 		any := false
 		for i := 0; i < n; i++ {
@@ -337,7 +402,7 @@ func laneE2E(c *ev.Ctx) {
 			c.Inconclusive("gateway start: " + err.Error())
 			continue
 		}
-		e := &e2e{c: c, env: env, cfg: cf.name}
+		e := &e2e{c: c, env: env, cfg: cf.name, versioned: cf.cfg.Versioning}
 		var wg sync.WaitGroup
 		work := make(chan int, 16)
 		for w := 0; w < 8; w++ {
